@@ -138,8 +138,22 @@ def enum_pairs(points):
     return gen
 
 
+def enum_triples():
+    """thorough only: all pairs of span lists with <=3 spans over a 3-point grid x 16 relation pairs"""
+    spans = [(s, e) for s in range(3) for e in range(s, 3)]
+    lists = [[]] + [[x] for x in spans] + [[x, y] for x in spans for y in spans] + [[x, y, z] for x in spans for y in spans for z in spans]
+    for a in lists:
+        for b in lists:
+            for ra in range(4):
+                for rb in range(4):
+                    yield {"a": [list(x) for x in a], "b": [list(x) for x in b], "ra": ra, "rb": rb, "two_seq": (ra + rb) % 2 == 0, "probes": [[0, 2]]}
+
+
 def enumerations(tier):
-    return [("pairs-<=2spans-4point-grid-x16relations", enum_pairs(4), True)]
+    parts = [("pairs-<=2spans-4point-grid-x16relations", enum_pairs(4), True)]
+    if tier == "thorough":
+        parts.append(("pairs-<=3spans-3point-grid-x16relations", enum_triples, True))
+    return parts
 
 
 def strategies(tier):
